@@ -1,6 +1,6 @@
 (* C18  Incremental analysis is transparent across edit histories.
    Statements only; every proof is `exact <lemma>`. *)
-From CV Require Import Base.Bytes Cache.Defs Cache.Proofs Cache.Gen_KeyFields Cache.KeyProofs.
+From CV Require Import Base.Bytes Cache.Defs Cache.Proofs Cache.DecProofs Cache.Gen_KeyFields Cache.KeyProofs.
 Local Open Scope N_scope.
 
 (* Any history of edits (add, remove, rename, touch, modify; sources and headers
@@ -26,26 +26,45 @@ Proof.
 Qed.
 Print Assumptions C18_cache_transparent_under_faithful_key.
 
-(* What the key of the CURRENT source does with token locations (loc_enc is
-   regenerated from Preprocessor::calculateHash on every run):
-   LocChar - moving every token down by 256 lines, or right by 256 columns,
-             leaves the hash data of every unit unchanged: faithful_key is refuted
-             for any analysis that reports line numbers;
-   LocDec  - the location record has a length determined by the digits. *)
+(* ---- positive obligations on the key of the CURRENT source (Gen_KeyFields.v is
+   regenerated from /repo on every run; each of these breaks if the repair is undone) *)
+
+(* locations are hashed in full: ' ' line ':' col '\n' in decimal (fix c6c15b8) *)
+Theorem C18_loc_enc_is_full : loc_enc = LocDec.
+Proof. reflexivity. Qed.
+Print Assumptions C18_loc_enc_is_full.
+
+(* the decimal location record, followed by anything, determines line, column and the rest *)
+Theorem C18_location_record_injective l c r l' c' r' :
+  enc_loc loc_enc l c ++ r = enc_loc loc_enc l' c' ++ r' -> l = l' /\ c = c' /\ r = r'.
+Proof. exact (enc_loc_dec_inj l c r l' c' r'). Qed.
+Print Assumptions C18_location_record_injective.
+
+(* faithful_key for locations: two units with the same token texts and the same hash
+   data have the same locations - no move by any number of lines or columns is invisible *)
+Theorem C18_locations_reach_the_key hp ti p ts ts' :
+  map text ts = map text ts' ->
+  hashdata loc_enc hp ti (mkU p ts []) = hashdata loc_enc hp ti (mkU p ts' []) -> ts = ts'.
+Proof. exact (hashdata_dec_locations hp ti p ts ts'). Qed.
+Print Assumptions C18_locations_reach_the_key.
+
+(* the same as a status for either encoding the translator can emit (LocChar: a
+   256-line / 256-column move is invisible; LocDec: the statement above) *)
 Theorem C18_key_location_status : loc_status loc_enc.
 Proof. exact (loc_status_all loc_enc). Qed.
 Print Assumptions C18_key_location_status.
 
-(* faithful_key refuted outright while the defect is there: two units whose
-   tokens sit on different lines have the same hash data *)
-Theorem C18_faithful_key_refuted_for_LocChar :
-  exists ti p ts ts', ts <> ts' /\ map (fun t => fst (fst t)) ts = map (fun t => fst (fst t)) ts' /\
-    hashdata LocChar false ti (mkU p ts []) = hashdata LocChar false ti (mkU p ts' []).
-Proof.
-  exists [], [97], [([120], 1, 1)], [([120], 257, 1)].
-  split; [discriminate|]. split; reflexivity.
-Qed.
-Print Assumptions C18_faithful_key_refuted_for_LocChar.
+(* files.txt: an exact match wins (fix f7cef37), so every listed file finds the line
+   written for it - for every list of distinct files *)
+Theorem C18_lookup_is_exact_first : lookup_mode_ = ExactThenSuffix.
+Proof. reflexivity. Qed.
+Print Assumptions C18_lookup_is_exact_first.
+
+Theorem C18_each_file_finds_its_own_line files :
+  NoDup files ->
+  map (lookup_af lookup_mode_ (files_txt files)) files = map fst (files_txt files).
+Proof. exact (exact_lookup_own_line files). Qed.
+Print Assumptions C18_each_file_finds_its_own_line.
 
 (* the path of the source file is invisible to the key while toolinfo omits it *)
 Theorem C18_key_blind_to_source_path_while_omitted o p q ts hs :
@@ -60,18 +79,19 @@ Theorem C18_key_blind_to_header_path_while_omitted e ti p ts hp hq hts hs :
 Proof. exact (hashdata_hdrpath_blind e ti p ts hp hq hts hs). Qed.
 Print Assumptions C18_key_blind_to_header_path_while_omitted.
 
-(* files.txt: the endsWith-first lookup (SuffixFirst, the current source) is not unique - x.c and d/x.c share x.a1 *)
-Theorem C18_files_txt_suffix_clash_refuted :
+(* why the fix was needed: under the former endsWith-first lookup x.c and d/x.c share x.a1,
+   under the current one they do not *)
+Theorem C18_suffix_first_lookup_clashes :
   exists files, NoDup files /\ lookup_okb SuffixFirst files = false /\
     lookup_af SuffixFirst (files_txt files) (nth 0 files []) = lookup_af SuffixFirst (files_txt files) (nth 1 files []).
 Proof.
   exists [[120;46;99]; [100;47;120;46;99]].
   split; [repeat constructor; cbn; intuition discriminate|]. split; vm_compute; reflexivity.
 Qed.
-Print Assumptions C18_files_txt_suffix_clash_refuted.
+Print Assumptions C18_suffix_first_lookup_clashes.
 
 (* non-vacuity: the premises are inhabited *)
-Example C18_lookup_ok_example : lookup_okb SuffixFirst [[97;46;99]; [98;47;100;46;99]; [99;46;99]] = true.
+Example C18_lookup_ok_example : lookup_okb lookup_mode_ [[120;46;99]; [100;47;120;46;99]; [105;111;46;99]; [115;116;100;105;111;46;99]] = true.
 Proof. vm_compute. reflexivity. Qed.
 Example C18_premises_inhabited :
   exists (H : str -> N) (keydata : unit -> ustate -> str) (analyze : unit -> ustate -> list N * N) (D : str -> Prop),
